@@ -36,6 +36,7 @@ import (
 	"sort"
 	"strings"
 	"sync"
+	"sync/atomic"
 	"testing"
 
 	"github.com/ChainSafe/gossamer/internal/verifmc"
@@ -312,40 +313,71 @@ func (e *c21Elem) render() string {
 	return s
 }
 
-// violations are collected and flushed simplest first, so that the kept witnesses are minimal and stable
+// violations: per signature the count and the 3 simplest witnesses are kept, so that the reported
+// witnesses are minimal and the same in every run
 type c21Vio struct {
-	sig, desc string
-	size      int
-	order     int64
-	replay    any
+	desc   string
+	size   int
+	order  int64
+	replay any
+}
+
+func (a *c21Vio) less(b *c21Vio) bool {
+	if a.size != b.size {
+		return a.size < b.size
+	}
+	return a.order < b.order
+}
+
+type c21SigBucket struct {
+	count int
+	best  []c21Vio
 }
 
 type c21Sink struct {
 	mu   sync.Mutex
-	vios []c21Vio
+	sigs map[string]*c21SigBucket
 }
 
 func (s *c21Sink) add(sig, desc string, size int, order int64, replay any) {
 	s.mu.Lock()
-	s.vios = append(s.vios, c21Vio{sig, desc, size, order, replay})
-	s.mu.Unlock()
+	defer s.mu.Unlock()
+	if s.sigs == nil {
+		s.sigs = map[string]*c21SigBucket{}
+	}
+	b := s.sigs[sig]
+	if b == nil {
+		b = &c21SigBucket{}
+		s.sigs[sig] = b
+	}
+	b.count++
+	b.best = append(b.best, c21Vio{desc, size, order, replay})
+	sort.SliceStable(b.best, func(i, j int) bool { return b.best[i].less(&b.best[j]) })
+	if len(b.best) > 3 {
+		b.best = b.best[:3]
+	}
 }
 
 func (s *c21Sink) flush(r *verifmc.Report) {
-	sort.SliceStable(s.vios, func(i, j int) bool {
-		if s.vios[i].size != s.vios[j].size {
-			return s.vios[i].size < s.vios[j].size
+	var sigs []string
+	for k := range s.sigs {
+		sigs = append(sigs, k)
+	}
+	sort.Slice(sigs, func(i, j int) bool {
+		a, b := s.sigs[sigs[i]].best[0], s.sigs[sigs[j]].best[0]
+		if a.less(&b) != b.less(&a) {
+			return a.less(&b)
 		}
-		return s.vios[i].order < s.vios[j].order
+		return sigs[i] < sigs[j]
 	})
-	kept := map[string]int{}
-	for _, v := range s.vios {
-		kept[v.sig]++
-		if kept[v.sig] > 3 {
-			r.Violate(v.sig, "", nil) // counted only
-			continue
+	for _, sig := range sigs {
+		b := s.sigs[sig]
+		for _, v := range b.best {
+			r.Violate(sig, v.desc, v.replay)
 		}
-		r.Violate(v.sig, v.desc, v.replay)
+		for i := len(b.best); i < b.count; i++ {
+			r.Violate(sig, "", nil) // counted only
+		}
 	}
 }
 
@@ -435,7 +467,7 @@ func c21CheckA(r *verifmc.Report, sink *c21Sink, order int64, tree *c21Tree, e *
 				c21Replay(e, map[string]any{"weights": w, "ghost": g, "want": want, "got": res}))
 		}
 		if len(seen) > 1 {
-			r.Add("nondeterministic_outcomes", 1)
+			atomic.AddInt64(&c21Nondet, 1)
 			var l []string
 			for k := range seen {
 				l = append(l, k)
@@ -445,8 +477,10 @@ func c21CheckA(r *verifmc.Report, sink *c21Sink, order int64, tree *c21Tree, e *
 			if status == "ok" {
 				want = fmt.Sprint(c21Cap(tree, g, c))
 			}
-			r.Outcome(fmt.Sprintf("A:nondeterministic|status=%s|%d results", status, len(l)))
-			r.Sample(fmt.Sprintf("nondeterministic determinePreCommit: %s -> results %v (want %s)", e.render(), l, want))
+			if status == "ok" {
+				r.Outcome("A:nondeterministic-although-the-ghost-is-determined") // never seen; would make the counts run-dependent
+			}
+			c21NondetSample.Store(fmt.Sprintf("determinePreCommit: %s -> results %v (want %s)", e.render(), l, want))
 		}
 	}
 	e.C = 0
@@ -604,7 +638,8 @@ func c21CheckB(r *verifmc.Report, sink *c21Sink, order int64, tree *c21Tree, e *
 			}
 		}
 		if len(seen) > 1 {
-			r.Add("nondeterministic_outcomes", 1)
+			atomic.AddInt64(&c21Nondet, 1)
+			c21NondetSample.Store(fmt.Sprintf("attemptToFinalize: %s", e.render()))
 		}
 	}
 	e.Pc = nil
@@ -992,6 +1027,13 @@ func c21Groups() (groups []c21Group, rule string) {
 
 func c21R() int { return verifmc.Pick(3, 8) }
 
+// elements whose repetitions gave different results (map iteration order): observed, run-dependent, hence
+// kept out of the counters; every distinct result is judged on its own
+var (
+	c21Nondet       int64
+	c21NondetSample atomic.Value
+)
+
 func c21RunGroup(r *verifmc.Report, sink *c21Sink, order int64, g *c21Group, R int) {
 	e := g.elem
 	switch g.part {
@@ -1040,7 +1082,7 @@ func TestVerif_C21(t *testing.T) {
 	groups, rule := c21Groups()
 	r.Rule = rule
 	r.Assumption("reference: weights over the plain parent vector; a vote counts iff the harness built it as valid (correct signature of an authority over (stage, hash, header number, round 1, set 0) for a block descending from the finalised head)")
-	r.Assumption("map iteration order cannot be seeded: every tally-dependent call is repeated R times on the same vote state and every distinct result is judged; elements whose results differ between repetitions are counted in nondeterministic_outcomes")
+	r.Assumption("map iteration order cannot be seeded: every tally-dependent call is repeated R times on the same vote state and every distinct result is judged; the (run-dependent) number of elements whose results differed between repetitions is reported in extra.nondeterministic_elements_observed")
 	R := c21R()
 	sink := &c21Sink{}
 	verifmc.ParallelFor(r, len(groups), func(i int) {
@@ -1049,6 +1091,8 @@ func TestVerif_C21(t *testing.T) {
 		sink.add("harness-panic", msg, 0, int64(i), map[string]any{"elem": groups[i].elem})
 	})
 	sink.flush(r)
+	r.Extra["nondeterministic_elements_observed"] = map[string]any{"count": atomic.LoadInt64(&c21Nondet), "example": c21NondetSample.Load(),
+		"note": "elements on which R repetitions of the same call on the same vote state returned different results (Go map iteration order); the number depends on the run; all of them are vote sets with supermajority blocks on different forks (not compared) unless an outcome class says otherwise"}
 	r.Add("groups", int64(len(groups)))
 	for _, i := range []int{0, len(groups) / 4, len(groups) / 2, len(groups) - 1} {
 		if i >= 0 && i < len(groups) {
